@@ -317,6 +317,14 @@ func run(args []string) error {
 	o.Def("cases_query", "Z * Z * list (Z * res (list Z * Z * error))", q.sessions)
 	o.Def("cases_qorder", "bool * list Z", q.orders)
 
+	// ---- the HTTP parameter decoding of GET /api/v2/transactions
+	apiCases, apiJS, err := runPageAPI(r, o, hist, thorough)
+	if err != nil {
+		return err
+	}
+	caseJSON["apipage"] = apiJS
+	o.Def("cases_apipage", "list Z * list Z * (Z * Z * Z)", apiCases)
+
 	o.Def("cases_cal", "Z * Z * Z * error * res (Z * Z * Z * error)", cal)
 	o.Def("cases_calraw", "Z * Z * Z * res (Z * Z * Z * error)", calraw)
 	o.Def("cases_page", "Z * Z * Z * res (list Z * Z * error)", page)
